@@ -158,3 +158,45 @@ fn _keep_generic_instantiable() {
     let _ = validate_then_decode::<String, 2>;
     let _ = validate_then_decode::<Option<String>, 2>;
 }
+
+/// The loader's per-slab bookkeeping (what RleLoadIter does for every segment of untrusted input:
+/// `check_len` then `track`) must not overflow its item count: a null run carries ANY u64 count
+/// from the wire and a repeat run any positive i64. Two segments as the decoder can hand them over.
+/// (Before the fix: commit this was `track` alone, and the addition overflowed.)
+#[kani::proof]
+#[kani::unwind(4)]
+fn rle_loader_item_count_no_overflow() {
+    let c1: usize = kani::any();
+    let c2: usize = kani::any();
+    kani::assume(c1 >= 1);
+    kani::assume(c2 >= 2 && c2 <= i64::MAX as usize);
+    let v: u64 = kani::any();
+    let mut cut = CutState::default();
+    let s1 = RleSegment::<Option<u64>>::Null { count: c1, bytes: 11 };
+    let s2 = RleSegment::<Option<u64>>::Run { count: c2, value: Some(v), bytes: 11 };
+    let mut refused = false;
+    match cut.check_len(&s1) {
+        Ok(()) => {
+            let _ = cut.track::<Option<u64>>(s1);
+            match cut.check_len(&s2) {
+                Ok(()) => {
+                    let _ = cut.track::<Option<u64>>(s2);
+                    assert!(cut.slab.len == c1 + c2 && cut.slab.segments == 2);
+                }
+                Err(e) => {
+                    // refused exactly when the sum does not fit
+                    assert!(c1.checked_add(c2).is_none());
+                    refused = true;
+                    std::mem::forget(e);
+                }
+            }
+        }
+        Err(e) => {
+            std::mem::forget(e);
+            panic!("a single run always fits an empty slab");
+        }
+    }
+    kani::cover!(refused);
+    kani::cover!(!refused && c1 == 1);
+    std::mem::forget(cut);
+}
